@@ -382,3 +382,4 @@ H("C13", "html/layout", "VxH_C13_auto_span_min", mode="real", reach=["laid-out"]
 H("C14", "utils", "VxH_C14_metadata", reach=["extracted", "not-a-standard-name"], bounds="<meta name> among 11 spellings (ASCII case variants, U+212A / U+0130 / U+017F look-alikes, other names) x 2 contents")
 H("C19", "html/boxes", "VxH_C19_descriptors_from_css", reach=["built"], bounds="@counter-style (numeric over ten letters) with negative: prefix suffix / prefix only, range: infinite 5 / 0 infinite; counter value in {-12, -2, 3, 7}", quick={"maxsteps": 100000000})
 H("C04", "html/tree", "VxH_C04_image_orientation", reach=["computed"], bounds="image-orientation of -6..6 quarter turns")
+H("C14", "utils", "VxH_C14_w3c_date", reach=["parsed"], bounds="W3C date-time with a time zone designator: sign x hours {0,1,5,11} x minutes {0,15,30,45}")
